@@ -155,31 +155,3 @@ Example C07_ex_history :
   [(none3, 1); (none3, 2); (VB 101 true, 2); (KVB 2 102 true, 2); (KVB 1 101 true, 2); (KVB 1 101 true, 1); (VB 103 true, 1)].
 Proof. split; reflexivity. Qed.
 
-(* ================================================================== *)
-(* The pointer level: the same theorems hold of the next/prev code     *)
-
-(* every pointer operation implements the list operation of Layer 1: on every
-   history the heap-level code returns exactly what Layer 1 returns *)
-Theorem C07_dll_refines_lru : forall cap d c ops,
-  d_new cap = Ok d -> new_lru cap = Ok c -> run_dll d ops = run_lru c ops.
-Proof. exact dll_refines_lru. Qed.
-Print Assumptions C07_dll_refines_lru.
-
-(* the ring invariant (next/prev inverse, the ring through the root enumerates
-   the NoDup list of node addresses of Layer 1, keys and values stored in the
-   cells) holds after every history *)
-Theorem C07_dll_rep_all_histories : forall cap d c ops,
-  d_new cap = Ok d -> new_lru cap = Ok c -> Rep (final d_step ops d) (final step ops c).
-Proof. exact dll_rep_final. Qed.
-Print Assumptions C07_dll_rep_all_histories.
-
-(* hence the statement of C07 holds of the pointer-level code *)
-Theorem C07_dll_trace_meets_statement : forall cap d ops,
-  d_new cap = Ok d -> trace_ok cap 0 l_empty (trace_of ops (run_dll d ops)).
-Proof. exact dll_trace_ok. Qed.
-Print Assumptions C07_dll_trace_meets_statement.
-
-Theorem C07_dll_refines_spec : forall cap d ops,
-  d_new cap = Ok d -> run_dll d ops = run_spec cap ops.
-Proof. exact dll_refines_spec. Qed.
-Print Assumptions C07_dll_refines_spec.
